@@ -78,10 +78,19 @@ struct Agg {
     suppressed: BTreeMap<String, u64>,
     deaths: Vec<(String, String, String, Item)>,
     broken: Vec<String>,
+    /// (process, request key, hash of the reference observation computed in that process)
+    proc_refs: Vec<(usize, u64, u64)>,
+    /// world tags each worker process ran, in order
+    proc_tags: BTreeMap<usize, Vec<String>>,
+    /// added to the pool's process ids (several pools run during one check)
+    proc_offset: usize,
 }
 
 impl Agg {
-    fn absorb_r(&mut self, r: RMsg) {
+    fn absorb_r(&mut self, procid: usize, r: RMsg) {
+        for (k, h) in &r.refs {
+            self.proc_refs.push((procid + self.proc_offset, *k, *h));
+        }
         for (k, v) in r.stats {
             *self.stats.entry(k).or_insert(0) += v;
         }
@@ -118,7 +127,8 @@ impl Agg {
         let rx = run_pool(n, items);
         for m in rx {
             match m {
-                Msg::R(r) => self.absorb_r(r),
+                Msg::R(p, r) => self.absorb_r(p, r),
+                Msg::Tags(p, t) => self.proc_tags.entry(p + self.proc_offset).or_default().extend(t),
                 Msg::V(v) => self.violations.push(v),
                 Msg::D(t, d) => {
                     self.digests.insert(t, d);
@@ -188,7 +198,7 @@ pub fn check(prop: &str, tier_name: &str) -> i32 {
     // ---- phase 0: determinism self-test (same seeds, different processes, different worker counts)
     let mut a1 = Agg::default();
     a1.run(1.max(nw / 4), batches(prop, base, 0, t.selftest, t.selftest.div_ceil(3), true));
-    let mut a2 = Agg::default();
+    let mut a2 = Agg { proc_offset: 500_000, ..Default::default() };
     a2.run(nw, batches(prop, base, 0, t.selftest, 16, true));
     if !a1.broken.is_empty() || !a2.broken.is_empty() {
         eprintln!("HARNESS: {:?} {:?}", a1.broken, a2.broken);
@@ -211,9 +221,10 @@ pub fn check(prop: &str, tier_name: &str) -> i32 {
     let expect = |a: &Agg| t.selftest as usize - dead(a).len() - hung(a).len();
     let selftest_ok = nondet.is_empty() && a1.digests.len() == expect(&a1) && a2.digests.len() == expect(&a2);
     println!("simc: self-test: {} seeds run twice ({} and {} workers), {} digest mismatches", a1.digests.len(), 1.max(nw / 4), nw, nondet.len());
+    let mut selftest_pending = false;
     if !selftest_ok {
         // For C05 an uncontrolled difference between two executions of one world is itself a
-        // divergence of the code under test if the observations differ; the replay decides.
+        // divergence of the code under test if the observations differ; the replays decide.
         println!("simc: self-test mismatch at {:?}", &nondet[..nondet.len().min(5)]);
         if prop == "C05" {
             let i: u64 = nondet[0].split(':').nth(1).and_then(|x| x.parse().ok()).unwrap_or(0);
@@ -221,9 +232,13 @@ pub fn check(prop: &str, tier_name: &str) -> i32 {
             if let Some(code) = xproc_violation(&root, prop, &[w], "same world observed differently in two processes (self-test)") {
                 return code;
             }
+            // not a per-process effect: hidden state carried across worlds is decided by the
+            // process-history comparison after the search
+            selftest_pending = true;
+        } else {
+            eprintln!("HARNESS: simulator nondeterministic (event digests differ between two runs of the same seed)");
+            return 2;
         }
-        eprintln!("HARNESS: simulator nondeterministic (event digests differ between two runs of the same seed)");
-        return 2;
     }
 
     // ---- phase 1: the search proper
@@ -331,20 +346,42 @@ pub fn check(prop: &str, tier_name: &str) -> i32 {
     for v in std::mem::take(&mut agg.violations) {
         by_key.entry(v.key.clone()).or_default().push(v);
     }
-    // cross-process agreement of the canonical reference observations (C05)
+    // C05 "in one process or across processes, regardless of what was compiled before": the reference
+    // observations the workers computed in the middle of their histories must equal the observation
+    // of the same request in a pristine process (the first and only thing that process does).
+    let mut pristine_checked = 0usize;
     if prop == "C05" {
-        for (k, hs) in &agg.refs {
-            if hs.len() > 1 {
-                println!("simc: reference observation of request {:016x} differs between worker processes", k);
-                if let Some(w) = find_request(&corpus, base, &t, *k) {
-                    if let Some(code) = xproc_violation(&root, prop, &[w], "canonical observation differs between processes") {
-                        return code;
-                    }
-                }
-                eprintln!("HARNESS: cross-process difference could not be reproduced");
-                return 2;
+        let pristine = pristine_hashes(&corpus, nw);
+        pristine_checked = pristine.len();
+        let mut refs = agg.proc_refs.clone();
+        refs.extend(a2.proc_refs.iter().cloned());
+        let mut tags = agg.proc_tags.clone();
+        tags.extend(a2.proc_tags.iter().map(|(k, v)| (*k, v.clone())));
+        let mut seen_keys = BTreeSet::new();
+        for (procid, key, hash) in refs {
+            let Some(p) = pristine.get(&key) else { continue };
+            if *p == hash || !seen_keys.insert(key) {
+                continue;
             }
+            println!("simc: request {:016x}: observation inside worker process {} differs from its observation in a pristine process", key, procid);
+            let Some(job) = corpus.iter().map(gen::job_of).find(|j| j.key() == key) else { continue };
+            let hist = tags.get(&procid).cloned().unwrap_or_default();
+            match prochist_violation(&root, prop, base, &corpus, &hist, &job, *p) {
+                Some(path) => {
+                    println!("VIOLATION property={} replay={}", prop, path);
+                    exit = 1;
+                }
+                None => {
+                    eprintln!("HARNESS: process-history divergence of request {:016x} could not be reproduced", key);
+                    return 2;
+                }
+            }
+            break;
         }
+    }
+    if selftest_pending && exit == 0 && by_key.is_empty() {
+        eprintln!("HARNESS: simulator nondeterministic (event digests differ between two runs of the same seed) and no divergence of the code under test explains it");
+        return 2;
     }
     if std::env::var("VERIF_TRIAGE_ONLY").is_ok() {
         for (key, vs) in &by_key {
@@ -460,6 +497,7 @@ pub fn check(prop: &str, tier_name: &str) -> i32 {
             "coverage_holes_probes_at_zero": holes,
             "outcomes": outcomes,
             "ticks_by_site": ticks,
+            "pristine_process_references_compared": pristine_checked,
             "selftest": {"seeds_run_twice": a1.digests.len(), "worker_counts": [1.max(nw / 4), nw], "digest_mismatches": 0},
             "components": {
                 "real": ["cc6502 library built from /repo working tree (cpp, pest parser, compile, generate, assemble)", "the repository's own builder src/tests/build.rs::simple_build", "Args via its clap parser", "std HashMap/RandomState/SipHash", "real include files on tmpfs", "std::io::BufRead::read_line / Write::write_all"],
@@ -533,6 +571,102 @@ fn abort_key(class: &str, w: &World) -> String {
         let label = job.map(|j| j.label.split(' ').next().unwrap_or("").to_string()).unwrap_or_default();
         format!("ABORT|{}|{}", class, label)
     }
+}
+
+/// Observation hash of every corpus program compiled canonically as the only job of a fresh process.
+fn pristine_hashes(corpus: &[Program], nw: usize) -> BTreeMap<u64, u64> {
+    let jobs: Vec<JobSpec> = corpus.iter().map(gen::job_of).collect();
+    let jobs = std::sync::Arc::new(jobs);
+    let next = std::sync::Arc::new(std::sync::atomic::AtomicUsize::new(0));
+    let out = std::sync::Arc::new(std::sync::Mutex::new(BTreeMap::new()));
+    let mut hs = Vec::new();
+    for _ in 0..nw {
+        let (jobs, next, out) = (jobs.clone(), next.clone(), out.clone());
+        hs.push(std::thread::spawn(move || loop {
+            let i = next.fetch_add(1, std::sync::atomic::Ordering::SeqCst);
+            if i >= jobs.len() {
+                break;
+            }
+            if let Ok((_, r)) = run_worlds_fresh("C05", &[World::solo("C05", jobs[i].clone())], 60) {
+                if let Some(o) = r.obs.first() {
+                    out.lock().unwrap().insert(o.2, o.3);
+                }
+            }
+        }));
+    }
+    for h in hs {
+        let _ = h.join();
+    }
+    let m = out.lock().unwrap().clone();
+    m
+}
+
+/// Worlds a worker process ran, regenerated from their tags (references become canonical solo worlds).
+fn regen_history(prop: &str, base: u64, corpus: &[Program], tags: &[String]) -> Vec<World> {
+    let mut v: Vec<World> = Vec::new();
+    for t in tags {
+        if let Some(k) = t.strip_prefix("ref:") {
+            let key = u64::from_str_radix(k, 16).unwrap_or(0);
+            let job = v.iter().rev().take(3).flat_map(|w| w.jobs.iter()).find(|j| j.key() == key).cloned();
+            if let Some(mut j) = job {
+                j.reader = StreamSpec::canonical();
+                j.writer = StreamSpec::canonical();
+                v.push(World::solo(prop, j));
+            }
+        } else if let Some(w) = world_of_tag(prop, base, t, corpus) {
+            v.push(w);
+        }
+    }
+    v
+}
+
+fn last_obs_hash(prop: &str, worlds: &[World]) -> Option<u64> {
+    match run_worlds_fresh(prop, worlds, 60) {
+        Ok((_, r)) => r.obs.iter().filter(|o| o.0 == worlds.len() - 1).map(|o| o.3).next(),
+        Err(_) => None,
+    }
+}
+
+/// Reproduce and minimise "request observed differently after a process history"; writes the replay.
+fn prochist_violation(root: &std::path::Path, prop: &str, base: u64, corpus: &[Program], hist: &[String], job: &JobSpec, pristine: u64) -> Option<String> {
+    let target = format!("ref:{:016x}", job.key());
+    let cut = hist.iter().position(|t| *t == target).unwrap_or(hist.len());
+    let full = regen_history(prop, base, corpus, &hist[..cut]);
+    let last = World::solo(prop, job.clone());
+    let differs = |h: &[World]| -> bool {
+        let mut w = h.to_vec();
+        w.push(last.clone());
+        matches!(last_obs_hash(prop, &w), Some(x) if x != pristine)
+    };
+    let mut history: Option<Vec<World>> = None;
+    for n in [20usize, 200, 2000, usize::MAX] {
+        let start = full.len().saturating_sub(n);
+        if differs(&full[start..]) {
+            history = Some(full[start..].to_vec());
+            break;
+        }
+        if start == 0 {
+            break;
+        }
+    }
+    let history = history?;
+    let mut budget = 120u32;
+    let min = ddmin(&history, |cand| differs(cand), &mut budget);
+    let mut worlds = if differs(&min) { min } else { history };
+    worlds.push(last);
+    let rf = ReplayFile {
+        property: prop.to_string(),
+        violation_class: "PROCHIST".into(),
+        violation_key: "PROCHIST|observation depends on what the process compiled before".into(),
+        detail: format!("the last world's observation after the preceding {} world(s) in the same process differs from its observation in a pristine process", worlds.len() - 1),
+        cargo_features: features().to_string(),
+        worlds,
+    };
+    let dir = root.join("replays");
+    let _ = std::fs::create_dir_all(&dir);
+    let path = dir.join(format!("{}-PROCHIST-{:016x}.json", prop, job.key()));
+    std::fs::write(&path, serde_json::to_string_pretty(&rf).unwrap()).ok()?;
+    Some(path.to_string_lossy().to_string())
 }
 
 fn world_of_tag(prop: &str, base: u64, tag: &str, corpus: &[Program]) -> Option<World> {
@@ -854,6 +988,18 @@ pub fn replay(path: &str) -> i32 {
         println!("simc: note: replay was recorded with cargo features {:?}, this binary has {:?}", rf.cargo_features, features());
     }
     println!("simc: replaying {} ({} world(s)), expected {} {}", path, rf.worlds.len(), rf.violation_class, rf.violation_key);
+    if rf.violation_class == "PROCHIST" {
+        let after = last_obs_hash(&rf.property, &rf.worlds);
+        let alone = last_obs_hash(&rf.property, &rf.worlds[rf.worlds.len() - 1..]);
+        println!("simc: observation of the last world after the recorded history: {:?}; alone in a pristine process: {:?}", after, alone);
+        return if after != alone {
+            println!("VIOLATION property={} replay={}", rf.property, path);
+            1
+        } else {
+            println!("simc: no violation on this tree");
+            0
+        };
+    }
     if rf.violation_class == "XPROC" {
         let root = verif_root();
         return xproc_violation(&root, &rf.property, &rf.worlds, &rf.detail).unwrap_or_else(|| {
@@ -930,7 +1076,8 @@ pub fn dbg(prop: &str, from: u64, to: u64) -> i32 {
     let rx = run_pool(n_workers().min(((to - from) as usize).max(1)), batches(prop, base, from, to, 8, true));
     for m in rx {
         match m {
-            Msg::R(r) => println!("R worlds={:?} violations={:?} suppressed={:?}", r.stats.get("worlds"), r.stats.get("violations"), r.suppressed),
+            Msg::R(_, r) => println!("R worlds={:?} violations={:?} suppressed={:?}", r.stats.get("worlds"), r.stats.get("violations"), r.suppressed),
+            Msg::Tags(..) => {}
             Msg::D(..) => {}
             Msg::V(v) => println!("V {} {} | {} | {}", v.tag, v.key, v.job_label, v.detail.chars().take(200).collect::<String>()),
             Msg::Died { tag, status, diag, .. } => println!("DIED {} {} | {}", tag, status, diag.lines().last().unwrap_or("")),
